@@ -452,6 +452,7 @@ def _cadence(core):
     final_name_ok = final_name == "self.config.output_dir / f'{self.config.output_label}_final.state'"
     # prologue: t0 from the restored iter
     resume_ok = False
+    manual_ok = False
     for s in rs.body[:loop_at]:
         if isinstance(s, ast.If) and ast.unparse(s.test) == "resume_state_path is not None":
             src = [ast.unparse(b) for b in s.body]
@@ -459,14 +460,26 @@ def _cadence(core):
                          and "iter_val = self.state.get_current('iter')" in src
                          and "t0 = int(iter_val) if iter_val is not None else 0" in src
                          and src.index("self._initialize_from_resume(resume_state_path)") < src.index("iter_val = self.state.get_current('iter')"))
-            fresh = [ast.unparse(b) for b in s.orelse]
-            resume_ok = resume_ok and "t0 = 0" in fresh and "self._initialize_fresh()" in fresh
+            orelse = s.orelse
+            # since /repo aeb0399 a middle branch: committed history present (load_state() before run(), or a second run())
+            # => continue it with t0 from the restored `iter`, no _initialize_fresh
+            if len(orelse) == 1 and isinstance(orelse[0], ast.If):
+                mid = orelse[0]
+                manual_ok = ast.unparse(mid.test) == "self.state.get_history_length() > 0" and \
+                    [ast.unparse(b) for b in mid.body] == ["iter_val = self.state.get_current('iter')",
+                                                          "t0 = int(iter_val) if iter_val is not None else 0"]
+                if not manual_ok:
+                    raise Unavailable(f"run_sampling: middle branch `{ast.unparse(mid.test)}` of unexpected shape")
+                orelse = mid.orelse
+            fresh = [ast.unparse(b) for b in orelse]
+            resume_ok = resume_ok and fresh == ["t0 = 0", "self._initialize_fresh()"]
     ifr = _find_func(core, "SamplerCore", "_initialize_from_resume")
     loads = [c for c in ast.walk(ifr) if isinstance(c, ast.Call) and _name(c.func) == "self.load_sampler_state"]
     resume_ok = resume_ok and len(loads) == 1 and ast.unparse(loads[0]) == "self.load_sampler_state(resume_state_path)"
     return {"cadenceExpr": ast.unparse(test), "cadenceModZero": mod_zero, "cadenceNeT0": ne_t0,
             "iterReadBeforeReweight": before, "periodicNameOk": periodic_name, "periodicName": name_expr,
-            "finalSave": final_save, "finalNameOk": final_name_ok, "finalName": final_name, "resumeT0FromIter": resume_ok}
+            "finalSave": final_save, "finalNameOk": final_name_ok, "finalName": final_name, "resumeT0FromIter": resume_ok,
+            "manualContinueBranch": manual_ok}
 
 
 def extract():
@@ -585,7 +598,7 @@ def extract_sm():
 
 # ------------------------------------------------------------------ rendering
 def _lstr(s):
-    return '"' + s.replace("\\", "\\\\").replace('"', '\\"') + '"'
+    return '"' + s.replace("\\", "\\\\").replace('"', '\\"').replace("\n", "\\n").replace("\t", "\\t") + '"'
 
 
 def _lbool(b):
@@ -635,6 +648,7 @@ def render(t):
          f"def finalName : String := {_lstr(t['finalName'])}",
          f"def finalNameOk : Bool := {_lbool(t['finalNameOk'])}",
          f"def resumeT0FromIter : Bool := {_lbool(t['resumeT0FromIter'])}",
+         f"def manualContinueBranch : Bool := {_lbool(t['manualContinueBranch'])}",
          "", "end Gen.Checkpoint", ""]
     return "\n".join(L)
 
@@ -661,6 +675,258 @@ def render_sm(t):
          f"def updateFromDictShape : Bool := {_lbool(t['updateFromDictShape'])}",
          "", "end Gen.Checkpoint", ""]
     return "\n".join(L)
+
+
+# ------------------------------------------------------------------ the checkpoint dictionary, what load restores, attributes of the core
+NAME_CORE = "G7-checkpoint-dict"
+
+
+def _self_attr_targets(node):
+    """attribute names assigned on `self` by one statement / call node"""
+    out = []
+    tgts = []
+    if isinstance(node, ast.Assign):
+        tgts = list(node.targets)
+    elif isinstance(node, (ast.AugAssign, ast.AnnAssign)):
+        tgts = [node.target]
+    elif isinstance(node, (ast.For, ast.AsyncFor)):
+        tgts = [node.target]
+    elif isinstance(node, (ast.With, ast.AsyncWith)):
+        tgts = [i.optional_vars for i in node.items if i.optional_vars is not None]
+    flat = []
+    for t in tgts:
+        flat += list(t.elts) if isinstance(t, (ast.Tuple, ast.List)) else [t]
+    for t in flat:
+        if isinstance(t, ast.Attribute) and _name(t.value) == "self":
+            out.append(t.attr)
+        elif isinstance(t, ast.Subscript) and _name(t.value) == "self.__dict__":
+            out.append("__dict__[" + (ast.unparse(t.slice)) + "]")
+    if isinstance(node, ast.Call):
+        f = _name(node.func)
+        if f in ("setattr", "object.__setattr__") and len(node.args) == 3 and _name(node.args[0]) == "self":
+            out.append(_const_str(node.args[1]) or ("<" + ast.unparse(node.args[1]) + ">"))
+        if f in ("self.__dict__.update", "vars(self).update", "self.__setattr__"):
+            out.append("<" + f + ">")
+    return out
+
+
+def _calls(fn, pred):
+    return sorted({n for c in ast.walk(fn) if isinstance(c, ast.Call) for n in [_name(c.func)] if n and pred(n)})
+
+
+def _is_random(n):
+    return n.startswith(("np.random.", "numpy.random.", "random.")) or n in ("np.random", "seed")
+
+
+def extract_core():
+    core = _parse("tempest/core.py")
+    cls = next((n for n in ast.walk(core) if isinstance(n, ast.ClassDef) and n.name == "SamplerCore"), None)
+    if cls is None:
+        raise Unavailable("class SamplerCore not found")
+    t = {}
+    # ---- save_sampler_state: the dictionary that is pickled
+    sv = _find_func(core, "SamplerCore", "save_sampler_state")
+    dvar, base_ok = None, False
+    for s in sv.body:
+        if isinstance(s, ast.Assign) and len(s.targets) == 1 and isinstance(s.targets[0], ast.Name) \
+                and ast.unparse(s.value) == "self.state.to_dict()":
+            dvar, base_ok = s.targets[0].id, True
+    if dvar is None:
+        raise Unavailable("save_sampler_state: no `<d> = self.state.to_dict()`")
+    keys = []
+    last_key_line = 0
+    for n in ast.walk(sv):
+        if isinstance(n, ast.Assign) and len(n.targets) == 1 and isinstance(n.targets[0], ast.Subscript) \
+                and _name(n.targets[0].value) == dvar:
+            k = _const_str(n.targets[0].slice)
+            if k is None:
+                raise Unavailable("save_sampler_state: non-literal key stored into the dictionary")
+            keys.append((n.lineno, k, ast.unparse(n.value)))
+            last_key_line = max(last_key_line, n.lineno)
+        elif isinstance(n, ast.Call) and _name(n.func) in (dvar + ".update", dvar + ".setdefault", dvar + ".pop"):
+            raise Unavailable(f"save_sampler_state: `{ast.unparse(n)[:60]}` on the checkpoint dictionary")
+        elif isinstance(n, ast.Delete) and any(_name(getattr(x, "value", None)) == dvar for x in n.targets):
+            raise Unavailable("save_sampler_state: `del` on the checkpoint dictionary")
+    keys.sort()
+    extra = []
+    for _, k, e in keys:
+        prev = [x for x in extra if x[0] == k]
+        if prev and prev[0][1] != e:
+            raise Unavailable(f"save_sampler_state: key {k!r} stored with two different expressions")
+        if not prev:
+            extra.append((k, e))
+    dumps = [c for c in ast.walk(sv) if isinstance(c, ast.Call) and _name(c.func) in ("dill.dump", "pickle.dump")]
+    dumps_dict = len(dumps) == 1 and len(dumps[0].args) >= 1 and _name(dumps[0].args[0]) == dvar
+    t.update(ckptBaseToDict=base_ok, ckptExtraKeys=extra, ckptDumpsDict=dumps_dict,
+             ckptKeysBeforeWrite=bool(dumps) and last_key_line < dumps[0].lineno,
+             saveAssignsAttrs=sorted({a for n in ast.walk(sv) for a in _self_attr_targets(n)}),
+             saveRandomCalls=_calls(sv, _is_random))
+    # ---- load_sampler_state: what is read from the dictionary and where it goes
+    ld = _find_func(core, "SamplerCore", "load_sampler_state")
+    lvar = None
+    for n in ast.walk(ld):
+        if isinstance(n, ast.Assign) and len(n.targets) == 1 and isinstance(n.targets[0], ast.Name) \
+                and isinstance(n.value, ast.Call) and _name(n.value.func) in ("dill.load", "pickle.load"):
+            lvar = n.targets[0].id
+    if lvar is None:
+        raise Unavailable("load_sampler_state: no `<d> = dill.load(f)`")
+    table = []
+    for s in ld.body:
+        if not isinstance(s, ast.If):
+            continue
+        test = ast.unparse(s.test)
+        if lvar not in {x.id for x in ast.walk(s.test) if isinstance(x, ast.Name)}:
+            continue
+        if s.orelse or len(s.body) != 1:
+            raise Unavailable(f"load_sampler_state: `if {test}` of unexpected shape")
+        body = ast.unparse(s.body[0])
+        m_in = isinstance(s.test, ast.Compare) and len(s.test.ops) == 1 and isinstance(s.test.ops[0], ast.In) \
+            and _const_str(s.test.left) is not None and _name(s.test.comparators[0]) == lvar
+        if m_in:
+            k = _const_str(s.test.left)
+            b = s.body[0]
+            if isinstance(b, ast.Assign) and len(b.targets) == 1 and isinstance(b.targets[0], ast.Attribute) \
+                    and _name(b.targets[0].value) == "self" and ast.unparse(b.value) == f"{lvar}[{k!r}]":
+                table.append((k, "key_present", "attr:" + b.targets[0].attr))
+                continue
+            raise Unavailable(f"load_sampler_state: `if {test}: {body}` not recognised")
+        k = None
+        for cand in ast.walk(s.test):
+            if isinstance(cand, ast.Call) and _name(cand.func) == lvar + ".get" and cand.args and _const_str(cand.args[0]):
+                k = _const_str(cand.args[0])
+        if k is not None and test == f"{lvar}.get({k!r}) is not None":
+            b = s.body[0]
+            if isinstance(b, ast.Expr) and isinstance(b.value, ast.Call) and len(b.value.args) == 1 \
+                    and ast.unparse(b.value.args[0]) == f"{lvar}[{k!r}]" and _name(b.value.func):
+                table.append((k, "value_not_none", _name(b.value.func)))
+                continue
+        raise Unavailable(f"load_sampler_state: `if {test}: {body}` not recognised")
+    read = set()
+    for n in ast.walk(ld):
+        if isinstance(n, ast.Subscript) and _name(n.value) == lvar:
+            read.add(_const_str(n.slice) or "<" + ast.unparse(n.slice) + ">")
+        elif isinstance(n, ast.Call) and _name(n.func) in (lvar + ".get", lvar + ".pop", lvar + ".setdefault") and n.args:
+            read.add(_const_str(n.args[0]) or "<" + ast.unparse(n.args[0]) + ">")
+        elif isinstance(n, ast.Compare) and len(n.ops) == 1 and isinstance(n.ops[0], (ast.In, ast.NotIn)) \
+                and _name(n.comparators[0]) == lvar:
+            read.add(_const_str(n.left) or "<" + ast.unparse(n.left) + ">")
+    # any other use of the loaded dictionary as a whole (passed on, iterated …)
+    whole = sorted({ast.unparse(c)[:80] for c in ast.walk(ld) if isinstance(c, ast.Call)
+                    and any(_name(a) == lvar for a in list(c.args) + [kw.value for kw in c.keywords])
+                    and _name(c.func) not in ("dill.load", "pickle.load")})
+    ifr = _find_func(core, "SamplerCore", "_initialize_from_resume")
+    t.update(loadTable=table, loadKeysRead=sorted(read), loadDictPassedTo=whole,
+             loadRandomCalls=sorted(set(_calls(ld, _is_random)) | set(_calls(ifr, _is_random))),
+             loadAssignsAttrs=sorted({a for n in ast.walk(ld) for a in _self_attr_targets(n)}),
+             loadSelfCalls=_calls(ld, lambda n: n.startswith("self.")),
+             resumeInitAssignsAttrs=sorted({a for n in ast.walk(ifr) for a in _self_attr_targets(n)}),
+             resumeInitSelfCalls=_calls(ifr, lambda n: n.startswith("self.")))
+    # ---- every attribute the class ever assigns on self
+    t["coreSelfAttrs"] = sorted({a for n in ast.walk(cls) for a in _self_attr_targets(n)})
+    # ---- run_sampling: resume branch, n_total, epilogue order
+    rs = _find_func(core, "SamplerCore", "run_sampling")
+    branch = next((s for s in rs.body if isinstance(s, ast.If) and ast.unparse(s.test) == "resume_state_path is not None"), None)
+    if branch is None:
+        raise Unavailable("run_sampling: no `if resume_state_path is not None`")
+    loop_at = next((i for i, s in enumerate(rs.body) if isinstance(s, ast.While)), None)
+    if loop_at is None:
+        raise Unavailable("run_sampling: no loop")
+    def _branch_calls(stmts):
+        return sorted({n for b in stmts for c in ast.walk(b) if isinstance(c, ast.Call)
+                       for n in [_name(c.func)] if n and (n.startswith("self.") or _is_random(n))})
+    t["runResumeBranchCalls"] = _branch_calls(branch.body)
+    orelse = branch.orelse
+    t["runManualBranchTest"], t["runManualBranchBody"] = "", []
+    if len(orelse) == 1 and isinstance(orelse[0], ast.If):
+        t["runManualBranchTest"] = ast.unparse(orelse[0].test)
+        t["runManualBranchBody"] = [ast.unparse(b) for b in orelse[0].body]
+        orelse = orelse[0].orelse
+    t["runFreshBranchCalls"] = _branch_calls(orelse)
+    at = rs.body.index(branch)
+    between = [ast.unparse(s) for s in rs.body[at + 1:loop_at]]
+    t["runNTotalAssign"] = "self.n_total = int(n_total)" in between and "self.t0 = t0" in between
+    t["runRandomCallsOutsideFresh"] = sorted({n for i, s in enumerate(rs.body) if s is not branch
+                                              for c in ast.walk(s) if isinstance(c, ast.Call) for n in [_name(c.func)] if n and _is_random(n)})
+    order = []
+    for s in rs.body[loop_at + 1:]:
+        u = ast.unparse(s)
+        if u == "_, logz = self.state.compute_logw_and_logz(1.0)":
+            order.append("z1")
+        elif u == "self.state.set_current('logz', logz)":
+            order.append("set_logz")
+        elif u == "self.logz_err = None":
+            order.append("logz_err_none")
+        elif isinstance(s, ast.If) and ast.unparse(s.test) == "save_every is not None":
+            order.append("final_save")
+        elif u == "self.pbar.close()":
+            order.append("pbar_close")
+        elif isinstance(s, ast.Expr) and isinstance(s.value, ast.Constant):
+            pass
+        else:
+            order.append("other:" + "_".join(u[:50].replace("=", ":").split()))
+    t["runEpilogueOrder"] = order
+    # ---- _initialize_fresh
+    fr = _find_func(core, "SamplerCore", "_initialize_fresh")
+    fsrc, fbody = _body_src(fr)
+    seeds_iff = any(isinstance(b, ast.If) and ast.unparse(b.test) == "self.config.random_state is not None" and not b.orelse
+                    and [ast.unparse(x) for x in b.body] == ["np.random.seed(self.config.random_state)"] for b in fbody)
+    sets = []
+    for b in fbody:
+        if isinstance(b, ast.Expr) and isinstance(b.value, ast.Call) and _name(b.value.func) == "self.state.set_current" \
+                and len(b.value.args) == 2 and _const_str(b.value.args[0]) is not None:
+            sets.append((_const_str(b.value.args[0]), ast.unparse(b.value.args[1])))
+    t.update(freshSeedsIffRandomState=seeds_iff, freshSets=sets,
+             freshRandomCalls=_calls(fr, _is_random))
+    return t
+
+
+def render_core(t):
+    one = lambda x: _lstr(" ".join(str(x).split()))  # noqa: E731  (no line breaks inside generated literals)
+    lst = lambda xs: "[" + ", ".join(one(x) for x in xs) + "]"  # noqa: E731
+    pairs = lambda xs: "[" + ", ".join("(" + ", ".join(one(y) for y in x) + ")" for x in xs) + "]"  # noqa: E731
+    L = ["/- GENERATED by translate/g7_checkpoint.py (extract_core) from /repo's current tempest/core.py — do not edit. -/",
+         "namespace Gen.Checkpoint", "",
+         f"def ckptBaseToDict : Bool := {_lbool(t['ckptBaseToDict'])}",
+         f"def ckptExtraKeys : List (String × String) := {pairs(t['ckptExtraKeys'])}",
+         f"def ckptDumpsDict : Bool := {_lbool(t['ckptDumpsDict'])}",
+         f"def ckptKeysBeforeWrite : Bool := {_lbool(t['ckptKeysBeforeWrite'])}",
+         f"def saveAssignsAttrs : List String := {lst(t['saveAssignsAttrs'])}",
+         f"def saveRandomCalls : List String := {lst(t['saveRandomCalls'])}",
+         f"def loadTable : List (String × String × String) := {pairs(t['loadTable'])}",
+         f"def loadKeysRead : List String := {lst(t['loadKeysRead'])}",
+         f"def loadDictPassedTo : List String := {lst(t['loadDictPassedTo'])}",
+         f"def loadRandomCalls : List String := {lst(t['loadRandomCalls'])}",
+         f"def loadAssignsAttrs : List String := {lst(t['loadAssignsAttrs'])}",
+         f"def loadSelfCalls : List String := {lst(t['loadSelfCalls'])}",
+         f"def resumeInitAssignsAttrs : List String := {lst(t['resumeInitAssignsAttrs'])}",
+         f"def resumeInitSelfCalls : List String := {lst(t['resumeInitSelfCalls'])}",
+         f"def coreSelfAttrs : List String := {lst(t['coreSelfAttrs'])}",
+         f"def runResumeBranchCalls : List String := {lst(t['runResumeBranchCalls'])}",
+         f"def runFreshBranchCalls : List String := {lst(t['runFreshBranchCalls'])}",
+         f"def runManualBranchTest : String := {_lstr(t['runManualBranchTest'])}",
+         f"def runManualBranchBody : List String := {lst(t['runManualBranchBody'])}",
+         f"def runNTotalAssign : Bool := {_lbool(t['runNTotalAssign'])}",
+         f"def runRandomCallsOutsideFresh : List String := {lst(t['runRandomCallsOutsideFresh'])}",
+         f"def runEpilogueOrder : List String := {lst(t['runEpilogueOrder'])}",
+         f"def freshSeedsIffRandomState : Bool := {_lbool(t['freshSeedsIffRandomState'])}",
+         f"def freshSets : List (String × String) := {pairs(t['freshSets'])}",
+         f"def freshRandomCalls : List String := {lst(t['freshRandomCalls'])}",
+         "", "end Gen.Checkpoint", ""]
+    return "\n".join(L)
+
+
+def generate_core():
+    """third generated file: the checkpoint dictionary, what load_sampler_state restores, the attributes of SamplerCore"""
+    try:
+        t = extract_core()
+    except Unavailable as e:
+        return (NAME_CORE, "unavailable", str(e))
+    except (SyntaxError, OSError) as e:
+        return (NAME_CORE, "unavailable", f"{type(e).__name__}: {e}")
+    changed = common.write_if_changed(os.path.join(common.GEN, "CheckpointCore.lean"), render_core(t))
+    return (NAME_CORE, "ok", f"{'re' if changed else ''}generated Gen/CheckpointCore.lean (extra keys "
+                             f"{[k for k, _ in t['ckptExtraKeys']]}; load restores {[(a, c) for a, _, c in t['loadTable']]}; "
+                             f"core attributes {t['coreSelfAttrs']})")
 
 
 NAME_SM = "G7-state-manager-io"
@@ -699,3 +965,4 @@ if __name__ == "__main__":
     print(generate())
     print(json.dumps(extract_sm(), indent=1))
     print(generate_sm())
+    print(json.dumps(extract_core(), indent=1))
